@@ -12,9 +12,9 @@ open Abverif Abverif.Comp
    events      `,`-separated: `S` start, `D` delay elapsed, `X` stop, `O<k><f>` outcome k∈0..7 with fatal flag f,
                `E<k><f>` session event k∈0..2 (lost leave goodbye)
  answer: `A=<i>@<t>~<w>,… D=<ok|err|none> L=<late writes> C=<ev><n>,… T=<att>/<succ>/<fail>/<retryDelay>/<pf>;… P=<phase> I=<idle>
-          V=<verdict bits, property spec> W=<verdict bits, spec with resetOnJoin = hasMain> O=<obs log>`
+          V=<verdict bits, property spec> O=<obs log>`
 
-`comp.judge <listeners> <resetOnJoin 0|1> <mr,maxDelay;…> <idle 0|1> <obs log>` → `V=<verdict bits> F=<spec>:<pos>,…`
+`comp.judge <listeners> <mr,maxDelay;…> <idle 0|1> <obs log>` → `V=<verdict bits> F=<spec>:<pos>,…`
    (the Spec monitors applied to a log observed on the implementation; F lists every rejected observation)
 
 verdict bits, in order: budget fatal roundRobin first delay progress doneOnce polarity stop bubble
@@ -179,18 +179,17 @@ def handle : List String → Option String
         s!"{t.attempts}/{t.successes}/{t.failures}/{renderQ t.retryDelay}/{boolStr t.permFail}")
       pure (s!"A={joinWith "," atts} D={d} L={late} C={joinWith "," calls} T={joinWith ";" ts} " ++
             s!"P={renderPhase s.phase} I={boolStr s.idle} " ++
-            s!"V={verdictBits (confOf trs ls true) log s.idle} W={verdictBits (confOf trs ls m) log s.idle} " ++
+            s!"V={verdictBits (confOf trs ls) log s.idle} " ++
             s!"O={joinWith "," (log.map renderObs)}")
-  | ["comp.judge", ls, rj, trs, idle, log] => do
+  | ["comp.judge", ls, trs, idle, log] => do
       let ls ← parseListeners ls
-      let rj ← (if rj = "1" then some true else if rj = "0" then some false else none)
       let idle ← (if idle = "1" then some true else if idle = "0" then some false else none)
       let trs ← (splitOn ';' trs).mapM (fun s =>
         match s.splitOn "," with
         | [mr, mx] => do let mr ← mr.toInt?; let mx ← parseQ mx; pure (Tr.new mr mx Q.zero Q.zero Q.zero)
         | _ => none)
       let log ← (splitOn ',' log).mapM parseObs
-      pure s!"V={verdictBits (confOf trs ls rj) log idle} F={failReport (confOf trs ls rj) log idle}"
+      pure s!"V={verdictBits (confOf trs ls) log idle} F={failReport (confOf trs ls) log idle}"
   | _ => none
 
 end Abverif.Drv.Component
